@@ -296,6 +296,12 @@ Fixpoint zll_eqb (a b : list (list Z)) : bool :=
 Definition corr (g pf : bool) (c : config) (h : list op) (expected : list (list Z)) : bool :=
   zll_eqb (map obs (trace g pf (init c) h)) expected.
 
+(* compact form of the same comparison: one checksum per observation (the harness computes the same polynomial checksum;
+   literals of ~45 numbers per step made coqc spend its time parsing).  On a mismatch the check prints the full observations. *)
+Definition obs_hash (l : list Z) : Z := fold_left (fun acc x => (acc * 1000003 + x + 7) mod 2305843009213693951) l 0.
+Definition corrh (g pf : bool) (c : config) (h : list op) (expected : list Z) : bool :=
+  zlist_eqb (map (fun s => obs_hash (obs s)) (trace g pf (init c) h)) expected.
+
 (* ---------------------------------------------------------------- executable twins of the property statements *)
 Definition pair_once (p : pair) : bool := (length (cbs p) + length (ebs p) <=? 1)%nat.
 Definition pair_reports (s : state) (p : pair) : bool :=
